@@ -44,9 +44,9 @@ SRC = os.path.join(os.environ.get("GSV_REPO", "/repo"), "src", "gstools")
 # variables / names shared with GSV/Model/Heap.lean
 # ----------------------------------------------------------------------------------------------------------------
 V = dict(pos=0, field=1, bins=2, mask=3, direction=4, extDrift=5, condPos=6, condVal=7, condErr=8, xData=9, yData=10,
-         weights=11, pointVol=12, data=13)
+         weights=11, pointVol=12, data=13, anis=14, angles=15, lenScale=16)
 N = dict(field=0, rawField=1, rawKrige=2, krigeField=3, krigeVar=4, meanField=5, new=6, pos=7, condPos=8, condVal=9,
-         condErr=10, condExt=11, krigePos=12, krigeMat=13)
+         condErr=10, condExt=11, krigePos=12, krigeMat=13, anis=14, angles=15)
 N_INV = {v: k for k, v in N.items()}
 
 LAYOUTS = ["alias", "i64", "f32", "list", "strided"]
@@ -820,6 +820,44 @@ def cases_pure(rng, layouts, full):
     return out
 
 
+def cases_covmodel(rng, layouts, full):
+    """CovModel construction and the anis / angles / len_scale setters with array arguments"""
+    gs = _gs()
+    out = []
+    classes = [gs.Gaussian, gs.Exponential] + ([gs.Matern, gs.Stable, gs.TPLStable, gs.JBessel] if full else [])
+    for cls, lay, latlon, n_anis, how in itertools.product(classes, layouts, (False, True), (1, 3, 4), ("init", "setter", "len_scale")):
+        dim = 4  # lat-lon + time: field dim 3 + 1; plain: dim=4
+        anis = mk(np.arange(2.0, 2.0 + n_anis), lay)
+        angles = mk(np.arange(1.0, 7.0) / 8, lay)
+        kw0 = dict(latlon=True, temporal=True) if latlon else dict(dim=4)
+        roles = {"anis": anis, "angles": angles}
+        if how == "len_scale":
+            ls = mk(np.arange(2.0, 2.0 + dim), lay)
+            roles = {"lenScale": ls, "angles": angles}
+
+        def call(cls=cls, kw0=kw0, anis=anis, angles=angles, how=how, roles=roles, latlon=latlon):
+            if how == "init":
+                m = cls(anis=anis, **({} if latlon else {"angles": angles}), **kw0)
+            elif how == "setter":
+                m = cls(**kw0)
+                m.anis = anis
+                if not latlon:
+                    m.angles = angles
+            else:
+                m = cls(**kw0)
+                m.len_scale = roles["lenScale"]
+                if not latlon:
+                    m.angles = angles
+            return {"attr:anis": m.anis, "attr:angles": m.angles}
+        if latlon:
+            roles = {k: v for k, v in roles.items() if k != "angles"}
+        c = Case(f"CovModel.{how}", "covModelInit", {"latlon": latlon, "pad": n_anis < dim - 1 or how == "len_scale"}, roles, call,
+                 key="CovModel.anis(latlon)" if latlon else "CovModel.anis")
+        c.layouts = {"all": lay, "class": cls.__name__, "n_anis": n_anis, "how": how}
+        out.append(c)
+    return out
+
+
 def all_cases(rng, layouts, full):
     opts = norm_options(full)
     cs = []
@@ -833,6 +871,7 @@ def all_cases(rng, layouts, full):
     cs += cases_vario(rng, layouts, opts, full)
     cs += cases_fit(rng, layouts, full)
     cs += cases_pure(rng, layouts, full)
+    cs += cases_covmodel(rng, layouts, full)
     return cs
 
 
@@ -946,6 +985,8 @@ class Tr:
         self.sites = []       # dicts: sid, kind ('site' | 'ret'), text, line, what
         self.containers = set()
         self.local_defs = set()
+        self.tuple_of = {}
+        self.want_tuple = 0
 
     # -- plumbing
     def var(self, name):
@@ -1181,9 +1222,17 @@ class Tr:
     # -- calls
     def ex_Call(self, e):
         f = e.func
+        want, self.want_tuple = self.want_tuple, 0
         args = [self.ex(a) for a in e.args]
         kws = {k.arg: self.ex(k.value) for k in e.keywords}
         kwnodes = {k.arg: k.value for k in e.keywords}
+        self.want_tuple = want
+        try:
+            return self._call(e, f, args, kws, kwnodes)
+        finally:
+            self.want_tuple = 0
+
+    def _call(self, e, f, args, kws, kwnodes):
         d = dotted(f)
         root = d.split(".")[0] if d else None
         last = d.split(".")[-1] if d else (f.attr if isinstance(f, ast.Attribute) else None)
@@ -1282,9 +1331,32 @@ class Tr:
         if name in self.pkg.classes and name not in self.pkg.by_name:
             return self.fresh()                                # instantiation: a new object
         cands = [g for g in self.pkg.by_name.get(name, []) if g.qual != "<module>"]
+        if method:
+            cands = [g for g in cands if g.is_method] or cands
+        else:
+            cands = [g for g in cands if not g.is_method] or cands
+            same = [g for g in cands if g.rel == self.fi.rel]
+            cands = same or cands
         if name in self.pkg.classes:
             cands = [g for g in self.pkg.by_name.get("__init__", []) if g.cls == name]
         fresh_ret = bool(cands) or name in self.pkg.classes
+        tups = [self.summ["tuple"].get(g.key) for g in cands]
+        if cands and name not in self.pkg.classes and all(t is not None for t in tups) and len({len(t) for t in tups}) == 1 \
+                and self.want_tuple == len(tups[0]):
+            elems = []
+            for i in range(len(tups[0])):
+                elems.append(self.fresh() if all(t[i] for t in tups) else self.unknown())
+            self._call_writes(cands, args, kws, node, method, name)
+            j = self.join(elems)
+            self.tuple_of[j] = elems
+            return j
+        self._call_writes(cands, args, kws, node, method, name)
+        for g in cands:
+            if name not in self.pkg.classes and g.key not in self.summ["fresh"]:
+                fresh_ret = False
+        return self.fresh() if fresh_ret else self.unknown()
+
+    def _call_writes(self, cands, args, kws, node, method, name):
         for g in cands:
             wp = self.summ["writes"].get(g.key, {})
             ps = g.params[1:] if (g.is_method and (method or name in self.pkg.classes)) else g.params
@@ -1296,9 +1368,6 @@ class Tr:
                     v = kws[pname]
                 if v is not None:
                     self.site("setItem", v, node, f"call of {g.qual}, which writes into its parameter '{pname}'")
-            if name not in self.pkg.classes and g.key not in self.summ["fresh"]:
-                fresh_ret = False
-        return self.fresh() if fresh_ret else self.unknown()
 
     # -- assignment targets
     def root_var(self, t):
@@ -1313,7 +1382,11 @@ class Tr:
             else:
                 self.containers.discard(target.id)
         elif isinstance(target, (ast.Tuple, ast.List)):
-            if isinstance(value_node, (ast.Tuple, ast.List)) and len(value_node.elts) == len(target.elts) and \
+            if v in self.tuple_of and len(self.tuple_of[v]) == len(target.elts) and \
+                    not any(isinstance(x, ast.Starred) for x in target.elts):
+                for t, x in zip(target.elts, self.tuple_of[v]):
+                    self.assign(t, x, None, stmt)
+            elif isinstance(value_node, (ast.Tuple, ast.List)) and len(value_node.elts) == len(target.elts) and \
                     not any(isinstance(x, ast.Starred) for x in list(target.elts) + list(value_node.elts)):
                 vs = [self.ex(x) for x in value_node.elts]
                 for t, x, n in zip(target.elts, vs, value_node.elts):
@@ -1389,7 +1462,11 @@ class Tr:
         self.ex(s.value)
 
     def st_Assign(self, s):
-        v = self.ex(s.value)
+        t0 = s.targets[0]
+        if len(s.targets) == 1 and isinstance(t0, (ast.Tuple, ast.List)) and isinstance(s.value, ast.Call):
+            self.want_tuple = len(t0.elts)      # the call result is unpacked into that many names
+        v = self.ex_Call(s.value) if self.want_tuple else self.ex(s.value)
+        self.want_tuple = 0
         for t in s.targets:
             self.assign(t, v, s.value, s)
 
@@ -1409,6 +1486,13 @@ class Tr:
             self.site("augName", self.ex(t), s, "augmented assignment to an attribute")
 
     def st_Return(self, s):
+        if isinstance(s.value, ast.Tuple) and not any(isinstance(x, ast.Starred) for x in s.value.elts):
+            vs = [self.ex(x) for x in s.value.elts]
+            for i, v in enumerate(vs):
+                self.emit("ret", v)
+                self.site("setItem", v, s, "returned value", kind="ret")
+                self.sites[-1]["pos"] = (i, len(vs))
+            return
         v = self.ex(s.value) if s.value is not None else self.scalar()
         self.emit("ret", v)
         self.site("setItem", v, s, "returned value", kind="ret")
@@ -1489,12 +1573,42 @@ class Tr:
         self.stmts(body)
         return self.blocks[0]
 
+    def locals0(self):
+        """variables that reference nothing when the call starts: every local name that is not a parameter (python starts
+        each call with an empty frame; reading an unbound local raises) and every temporary of the translation"""
+        fi = self.fi
+        params = set(fi.params + fi.kwonly + [p for p in (fi.vararg, fi.kwarg) if p])
+        stored, outer = set(), set()
 
-def scan_package(root=None, max_rounds=8):
-    """translate every function, iterate the summaries (returns-fresh, writes-parameter) to a fixpoint with the
-    Lean analysis as the only judge.  Returns (sites, stats)."""
+        def walk(n, top):
+            for ch in ast.iter_child_nodes(n):
+                if isinstance(ch, (ast.FunctionDef, ast.AsyncFunctionDef, ast.ClassDef)):
+                    stored.add(ch.name)
+                    continue
+                if isinstance(ch, ast.Lambda):
+                    continue
+                if isinstance(ch, (ast.Global, ast.Nonlocal)):
+                    outer.update(ch.names)
+                if isinstance(ch, ast.Name) and isinstance(ch.ctx, ast.Store):
+                    stored.add(ch.id)
+                if isinstance(ch, ast.ExceptHandler) and ch.name:
+                    stored.add(ch.name)
+                walk(ch, False)
+        walk(fi.node, True)
+        if isinstance(fi.node, (ast.Module, ast.ClassDef)):
+            stored = set()                      # module / class level names persist between executions
+        names = (stored - params - outer)
+        named_ids = set(self.vars.values())
+        ids = {self.vars[n] for n in names if n in self.vars}
+        ids |= {i for i in range(self.nvar) if i not in named_ids}     # temporaries
+        return sorted(ids)
+
+
+def scan_package(root=None, max_rounds=10):
+    """translate every function, iterate the summaries (returns-fresh per tuple position, writes-parameter) to a
+    fixpoint with the Lean analysis as the only judge.  Returns (sites, stats)."""
     pkg = Package(root or SRC)
-    summ = {"fresh": set(), "writes": {}}
+    summ = {"fresh": set(), "writes": {}, "tuple": {}}
     rounds = 0
     result = None
     while rounds < max_rounds:
@@ -1502,25 +1616,25 @@ def scan_package(root=None, max_rounds=8):
         ops, meta = [], []
         for fi in pkg.funcs:
             tr = Tr(pkg, fi, summ)
-            try:
-                body = tr.run()
-            except RecursionError:
-                raise
+            body = tr.run()
             real = [s for s in tr.sites if s["kind"] == "site"]
             rets = [s for s in tr.sites if s["kind"] == "ret"]
             if not real and not rets:
                 meta.append((fi, tr, None))
                 continue
             pvars = [(p, tr.vars[p]) for p in fi.params + fi.kwonly if p in tr.vars and p not in ("self", "cls")]
-            queries = [{"owned": [], "enable": [s["sid"] for s in rets]}]
+            loc = tr.locals0()
+            queries = [{"owned": loc, "enable": [s["sid"]]} for s in rets]
             for s in real:
-                queries.append({"owned": [], "enable": [s["sid"]]})
+                queries.append({"owned": loc, "enable": [s["sid"]]})
                 for p, v in pvars:
-                    queries.append({"owned": [v], "enable": [s["sid"]]})
+                    queries.append({"owned": loc + [v], "enable": [s["sid"]]})
+            queries.append({"owned": loc, "enable": [s["sid"] for s in real]})
             ops.append({"op": "heap_safeB", "body": body, "queries": queries})
             meta.append((fi, tr, len(ops) - 1))
         res = run_driver(ops)
-        fresh2, writes2, sites = set(), {}, []
+        fresh2, writes2, tuple2, sites = set(), {}, {}, []
+        whole = {}
         for fi, tr, idx in meta:
             if idx is None:
                 fresh2.add(fi.key)
@@ -1529,10 +1643,21 @@ def scan_package(root=None, max_rounds=8):
             if isinstance(r, dict):
                 raise RuntimeError(f"driver: {r}")
             real = [s for s in tr.sites if s["kind"] == "site"]
+            rets = [s for s in tr.sites if s["kind"] == "ret"]
             pvars = [p for p in fi.params + fi.kwonly if p in tr.vars and p not in ("self", "cls")]
-            if r[0]:
+            k = 0
+            ret_ok = []
+            for s in rets:
+                ret_ok.append(bool(r[k]))
+                k += 1
+            if all(ret_ok):
                 fresh2.add(fi.key)
-            k = 1
+            # tuple summary: over the `return a, b, c` statements (used only where the result is unpacked into
+            # that many targets, which a non-tuple return of the same function could not serve)
+            lens = {s["pos"][1] for s in rets if "pos" in s}
+            if len(lens) == 1:
+                L = lens.pop()
+                tuple2[fi.key] = [all(ok for s, ok in zip(rets, ret_ok) if s.get("pos", (None,))[0] == i) for i in range(L)]
             for s in real:
                 ok = r[k]
                 k += 1
@@ -1546,9 +1671,11 @@ def scan_package(root=None, max_rounds=8):
                 if not ok and by_param and fi.private:
                     for p in by_param:
                         writes2.setdefault(fi.key, {})[p] = True
+            whole[fi.key] = bool(r[k])
         result = (sites, {"functions": len(pkg.funcs), "rounds": rounds, "returns_fresh": len(fresh2),
+                          "functions_with_sites": len(whole), "functions_safe_as_a_whole": sum(whole.values()),
                           "writes_param": {f"{k[0]}::{k[1]}": sorted(v) for k, v in writes2.items()}})
-        if fresh2 == summ["fresh"] and writes2 == summ["writes"]:
+        if fresh2 == summ["fresh"] and writes2 == summ["writes"] and tuple2 == summ["tuple"]:
             break
-        summ = {"fresh": fresh2, "writes": writes2}
+        summ = {"fresh": fresh2, "writes": writes2, "tuple": tuple2}
     return result
